@@ -4,6 +4,7 @@ import (
 	"bytes"
 	"encoding/json"
 	"fmt"
+	"reflect"
 	"testing"
 
 	"github.com/Breeze0806/gobinlog/replication"
@@ -175,6 +176,20 @@ func checkRowsCase(c *RowsCase) error {
 				return err
 			}
 		}
+	}
+	// the accessors are functions of the event: asked again they answer the same, and what they
+	// answered before is still what it was
+	want, _ := json.Marshal(rows)
+	var tm2 *replication.TableMap
+	var rows2 replication.Rows
+	if err := guard(func() (e error) { tm2, e = tmEv.TableMap(f); return }); err != nil || !reflect.DeepEqual(tm, tm2) {
+		return fmt.Errorf("TableMap() of the same event a second time: %+v (err %v), the first time %+v", tm2, err, tm)
+	}
+	if err := guard(func() (e error) { rows2, e = rowsEv.Rows(f, tm); return }); err != nil || !reflect.DeepEqual(rows, rows2) {
+		return fmt.Errorf("Rows() of the same event a second time differs from the first (err %v)", err)
+	}
+	if now, _ := json.Marshal(rows); !bytes.Equal(now, want) {
+		return fmt.Errorf("the first Rows() result changed when Rows() was called again")
 	}
 	return nil
 }
